@@ -6,7 +6,8 @@ importing sub-modules.
 """
 
 import contextlib
-from datetime import datetime
+import os
+from datetime import datetime, timezone
 from os.path import getctime, getmtime
 from pathlib import Path
 from urllib.parse import urljoin
@@ -349,16 +350,22 @@ class Attachment:
         self.relationship = relationship
         self.md5 = None
 
+        # See https://reproducible-builds.org/docs/source-date-epoch/
+        if 'SOURCE_DATE_EPOCH' in os.environ:
+            now = datetime.fromtimestamp(
+                int(os.environ['SOURCE_DATE_EPOCH']), timezone.utc)
+        else:
+            now = datetime.now()
         if created is None:
             if filename:
                 created = datetime.fromtimestamp(getctime(filename))
             else:
-                created = datetime.now()
+                created = now
         if modified is None:
             if filename:
                 modified = datetime.fromtimestamp(getmtime(filename))
             else:
-                modified = datetime.now()
+                modified = now
         self.created = created
         self.modified = modified
 
